@@ -217,7 +217,16 @@ impl<CS: BbsCiphersuite> Signature<BBSplus<CS>> {
         update_index: usize,
         n: usize,
     ) -> Result<Self, Error> {
-        let generators = Generators::create::<CS>(n + 1, Some(CS::API_ID));
+        if update_index >= n {
+            return Err(Error::UpdateSignatureError(
+                "update_index >= n".to_owned(),
+            ));
+        }
+        // update_index < n, hence update_index + 1 cannot overflow; n + 1 can
+        let count = n.checked_add(1).ok_or_else(|| {
+            Error::UpdateSignatureError("n is too large".to_owned())
+        })?;
+        let generators = Generators::create::<CS>(count, Some(CS::API_ID));
 
         if generators.values.len() <= update_index + 1 {
             return Err(Error::UpdateSignatureError(
